@@ -621,7 +621,7 @@ class Items(Family):
         """Values assigned by the user in cells of an ItemSpace, held when the ItemSpace is deleted."""
         return [("input-item-leaf", "edit", lambda st: ("input", "P[1]", "u", (2,), 77) if _cached(st, "P", "u") else None),
                 e_simple("input-item-mid", ("input", "P[2]", "c", (1,), 88)),
-                e_simple("del-item", ("raw", "for _s in [s for s in m.P.itemspaces.values() if s.argvalues[0] == 1]:\n    del m.P[1]"))]
+                e_simple("del-item", ("raw", "for _s in [s for s in m.P.itemspaces.values() if s.argvalues[0] == 1]:\n    del m.P[tuple(_s.argvalues)]"))]
 
 
 FAMILIES = [Diamond(), Recur(), Fail(), Cross(), Reads(), UChain(), Inherit(), Items()]
